@@ -35,8 +35,9 @@ PROPS = {
                     "run by Oracle.C11b (judgeRanges / judgeSweep / judgeFind) on the implementation's output. (a)-(d) are full."],
     },
     "C06": {
-    "generators": [("c06a", 4000, 120000)],   # (generator, quick n, thorough n)
-    "modules": ["S2.ShapesBase", "S2.Shapes", "S2.Generated.ShapeAccessors", "S2.Locate", "S2.CellID"],
+    "generators": [("c06a", 4000, 120000), ("c06idx", 6000, 60000)],
+    "translators": ["translator_c06"],
+    "modules": ["S2.ShapesBase", "S2.Shapes", "S2.Generated.ShapeAccessors", "S2.Locate", "S2.CellID", "S2.Contain", "S2.Pred", "S2.Exact"],
     "rule": "shapes: every Shape type (Loop incl. empty/full/0/2-vertex, Polyline, LaxPolyline, PointVector, LaxLoop (both "
             "constructors), LaxPolygon with 0,1,2,few,many loops incl. 0/1/2-vertex loops, Polygon empty/full/no-loop, disjoint and "
             "nested loop sets of 1..7, 11,12,13,14,40 loops = both sides of maxLinearSearchLoops) with pairwise distinct vertices; "
@@ -46,7 +47,9 @@ PROPS = {
             "curve neighbours, random cells, first/last leaf of the curve.  non-trivial = every c06shape line with >= 1 edge and every "
             "c06loc/c06locp/c06seek line with a non-empty cell list; distinct = distinct (op, arguments)",
     "nontrivial": lambda l: (l.startswith("c06shape") and " 0 0 - - - -" not in l and " 0 1 - " not in l)
-                            or (l.startswith("c06loc") or l.startswith("c06seek")) and not l.split(" ")[1] == "-",
+                            or ((l.startswith("c06loc") or l.startswith("c06seek")) and not l.split(" ")[1] == "-")
+                            or l.startswith("c04cross") or l.startswith("c04cpq")
+                            or (l.startswith("c04idx") and l.split(" C ", 1)[-1].count(" ") >= 1),
     "trusted_base": [
         "translator_c06 (go/ast -> Lean) for the accessor arithmetic; every translated accessor is ALSO compared behaviourally (c06shape)",
         "Polygon.Edge/Chain/ChainPosition, the constructors' bookkeeping (LaxPolygonFromPoints cumulativeVertices, "
@@ -188,5 +191,48 @@ PROPS = {
                       "generic definition that runs bit-exactly on the soft-float against the Go code",
         "level_note": "partial: s1.Expanded (and Rect.expanded through it) keeps-every-point is false for the float code (findings: "
                       "2*dblEpsilon slack too small; Length() = -1 for the non-empty interval [pi, nextafter(-pi,0)]); caps not covered",
+    },
+    "C04": {
+    # (generator, quick n, thorough n); quick ~ 40 s on 16 cores, thorough ~ 7 min
+    "generators": [("c04", 8000, 80000)],
+    "modules": ["S2.Contain", "S2.Pred", "S2.Exact", "S2.STUV", "S2.F64", "S2.CellID", "S2.Hilbert"],
+    "rule": "exact judge = crossing parity from OriginPoint with the exact orientation predicate (S2.Contain over S2.Pred.exactDecision). "
+            "c04contain: valid loops (star-shaped about a centre at a pole / cube corner / face-edge midpoint / face centre / near a seam / anywhere; "
+            "3..2000 vertices incl. 30..35 around the 32-vertex brute-force threshold; radius 1e-7 .. hemisphere; regular or jittered; "
+            "snapped to cell centres or not; counter-clockwise or clockwise (= large complement); loops from cells of every level; "
+            "the empty and full loops; each also after Invert) and polygons (1-4 concentric nested loops + optional second shell, all loops "
+            "pairwise checked exactly for not touching; each also after Invert) x probes (loop vertices, vertices +-1..2 ulp, exact edge "
+            "midpoints and +-ulps, points 1e-15..1e-1 off an edge on both sides, centres / corners / child centres of the shape's own index "
+            "cells read through the hook, poles, cube corners, seam points, OriginPoint) answered by 15 evaluation paths (Loop.ContainsPoint "
+            "on a fresh loop = bound shortcut active, after Build, forced brute force, forced index path, ContainsPointQuery semi-open / open / "
+            "closed / Contains, Polygon.ContainsPoint fresh / built / forced brute force / forced query / iteratorContainsPoint, "
+            "containsBruteForce on loop and polygon). c04tile: the six faces, ALL cells of level 1..3 (thorough 4) with every vertex, centre, "
+            "edge midpoint (+-ulps) probed, the complete same-level neighbourhood of cells of level 4..30 (incl. cells at face corners / edges), "
+            "loop + inverse, polygon + complement: every probe contained exactly once by both the public and the forced index path. "
+            "c04idx: I1/I2/I3 of the loop's own index. non-trivial = a c04contain line with >= 3 vertices, any c04tile line, any c04idx line "
+            "with >= 2 cells; distinct = distinct (op, arguments)",
+    "nontrivial": lambda l: l.startswith("c04tile") or (l.startswith("c04contain") and l.split(" ")[1].count(";") >= 2)
+                            or (l.startswith("c04idx") and l.split(" C ", 1)[-1].count(" ") >= 1),
+    "trusted_base": [
+        "hook s2/verif_export_c04.go (read-only dump of index cells; wrappers forcing the brute-force / index path of Loop and Polygon)",
+        "the oracle decides orientation by the sign of the exact integer determinant with per-vector power-of-two scaling and falls back to "
+        "S2.Pred.exactDecision when it is zero; equality with S2.Pred.exactDecision is not proved: the first two probes of every c04contain "
+        "line (<= 300 vertices) are recomputed with S2.Contain.exactGeo and any difference is reported as `bad oracle-fastpath`",
+        "geometry assumed, not proved (hypotheses of the path-equality theorems, exercised on every line): ParityCocycle; locality = an edge "
+        "not listed in the located cell does not cross centre->p (abstract I2); Jordan-type tiling of the sphere by cell loops (CellLoopsTile)",
+        "Loop.bound / Polygon.bound (RectBounder, libm) are not modelled: a non-conservative bound shows up as a disagreement of path 0 / 8",
+        "ShapeIndex construction is not modelled: its result is checked against I1-I3 (c04idx)",
+    ],
+    "assumptions": [
+        "loops are valid (unit vertices, no duplicate vertex, no antipodal neighbours, no crossing edges); polygons have pairwise "
+        "non-touching, non-crossing loops — the generators check this exactly (quadratic) for loops up to 700 vertices and construct larger "
+        "loops star-shaped so that every edge stays in its own azimuth sector",
+        "CrossLaws (edge-reversal symmetry of EdgeOrVertexCrossing) is derived in S2Proofs.C04.crossLaws_of_signLaws from: Go == on points is "
+        "an equivalence (no NaN) and RobustSign(b,a,c) = -RobustSign(a,b,c) (property C02)",
+        "CellID.AllNeighbors may return a neighbour twice next to a cube vertex (documented in the C++ library): the neighbourhood tilings "
+        "deduplicate the cell list",
+    ],
+    "partial": ["loop_and_inverse_partition_partial", "polygon_and_complement_partition_partial", "tiling_two_loops_partial",
+                "CellLoopsTile is a def (tiling by all cells of a level): searched by c04tile, not proved"],
     },
 }
